@@ -84,6 +84,7 @@ EXPR_HOOKS = []            # per-group expression translations tried first: hook
 STMT_SKIP = []             # per-group statements that are deliberately not modelled: hook(stmt) -> bool
 STMT_HOOKS = []            # per-group statement translations tried first: hook(tr, stmt, rest, env, tail) -> term | None
 LOCAL_ELT = {}             # method -> {local list name: element type}: elements appended to it are coerced
+ALLOW_CONTINUE = False     # `continue` in a for loop: ends the iteration with the values carried so far (switched on per group)
 
 # ---- second group: small pure methods of other classes (Gen: PureSrc.v; equivalences: coq/tie/PureEquiv.v)
 PURE_SPECS = [
@@ -821,7 +822,7 @@ class Tr:
         cpat = '_' if not names else ("'(" + ', '.join(names) + ')' if len(names) > 1 else names[0])
         cval = 'tt' if not names else ('(' + ', '.join(names) + ')' if len(names) > 1 else names[0])
         for st in ast.walk(ast.Module(body=s.body, type_ignores=[])):
-            if isinstance(st, (ast.Return, ast.Continue)) or (isinstance(st, ast.For) and has_break):
+            if isinstance(st, ast.Return) or (isinstance(st, ast.Continue) and not ALLOW_CONTINUE) or (isinstance(st, ast.For) and has_break):
                 raise Unsupported('return / continue (or a nested loop around a break) inside a for loop')
         env.loop_ret.append(cval)
         body_t = self.T(list(s.body), env, f'ret {cval}')
@@ -859,6 +860,11 @@ class Tr:
         ast.copy_location(emptied, s)
         ast.fix_missing_locations(emptied)
         return self.T_For(loop, [emptied] + list(rest), env, tail)
+
+    def T_Continue(self, s, rest, env, tail):
+        if not env.loop_ret or not ALLOW_CONTINUE:
+            raise Unsupported('continue')
+        return f'ret {env.loop_ret[-1]}'
 
     def T_Break(self, s, rest, env, tail):
         if not env.loop_ret:
@@ -2058,6 +2064,89 @@ def translate_add_path(src_dir: str) -> str:
         METHODS, CFG_ATTRS, STATE_ATTRS, ORACLES, CFG_TYPE, LOCAL_ELT, EXTRA_PARAMS, MONAD, EXPR_HOOKS, STMT_SKIP, RECEIVERS, STMT_HOOKS = saved
     return ''.join(out)
 
+# ---- RasterImage.image_to_path (C15): one closed stroke per maximal run of black pixels of every row
+_RI_CONVERT = ("If(test=Compare(left=Attribute(value=Name(id='img'), attr='mode'), ops=[NotEq()], comparators=[Constant(value='1')]), body=[Assign(targets=["
+               "Name(id='img')], value=Call(func=Attribute(value=Name(id='img'), attr='convert'), args=[Constant(value='1')], keywords=[]))], orelse=[])")
+_RI_MATRIX = "Call(func=Attribute(value=Name(id='np'), attr='asarray'), args=[Name(id='img')], keywords=[keyword(arg='dtype', value=Name(id='bool'))])"
+_RI_SIZE = "Assign(targets=[Attribute(value=Name(id='self'), attr='img_size')], value=Attribute(value=Name(id='img'), attr='size'))"
+
+
+def _h_ri(tr, e, env):
+    d = dump(e)
+    if d == _RI_MATRIX:
+        return [], '(im_matrix img)'
+    m = re.fullmatch(r"Subscript\(value=Attribute\(value=Name\(id='self'\), attr='img_size'\), slice=Constant\(value=([01])\)\)", d)
+    if m:
+        return [], ('(fst img_size)' if m.group(1) == '0' else '(snd img_size)')
+    if (isinstance(e, ast.Call) and _np_is(e.func, 'np', 'linspace') and len(e.args) == 2 and isinstance(e.args[0], ast.Constant) and e.args[0].value == 0
+            and sorted(k.arg for k in e.keywords) == ['endpoint', 'num']):
+        kw = {k.arg: k.value for k in e.keywords}
+        if not (isinstance(kw['endpoint'], ast.Constant) and kw['endpoint'].value is True):
+            raise Unsupported('linspace without endpoint=True')
+        e1, t1 = tr.E(e.args[1], env)
+        e2, t2 = tr.E(kw['num'], env)
+        return e1 + e2, f'(np_linspace0 {t1} {t2})'
+    if isinstance(e, ast.BoolOp) and isinstance(e.op, ast.Or) and len(e.values) == 2 and isinstance(e.values[1], ast.Constant) and e.values[1].value == 0.0 \
+            and isinstance(e.values[1].value, float):
+        eff, t = tr.E(e.values[0], env)
+        return eff, f'(py_or0 {t})'
+    if isinstance(e, ast.Call) and isinstance(e.func, ast.Name) and e.func.id == 'split_mask' and len(e.args) == 2 and not e.keywords:
+        e1, t1 = tr.E(e.args[0], env)
+        a = e.args[1]
+        if not (isinstance(a, ast.UnaryOp) and isinstance(a.op, ast.Invert) and isinstance(a.operand, ast.Name)):
+            raise Unsupported('split_mask with a mask other than ~row')
+        v = env.fresh('parts')
+        return e1 + [(v, f'split_mask_1d {t1} (map negb {cname(a.operand.id)})')], v
+    if isinstance(e, ast.Call) and _np_is(e.func, 'np', 'array') and len(e.args) == 1 and isinstance(e.args[0], ast.List) and len(e.keywords) == 1 \
+            and e.keywords[0].arg == 'dtype' and dump(e.keywords[0].value) in ("Attribute(value=Name(id='np'), attr='float32')", "Name(id='int')"):
+        effs, ts = [], []
+        for x in e.args[0].elts:
+            eff, t = tr.E(x, env)
+            effs += eff
+            ts.append(f'(to_float {t})')
+        return effs, '[' + '; '.join(ts) + ']'
+    if (isinstance(e, ast.BinOp) and isinstance(e.op, ast.Mult) and isinstance(e.left, ast.Name) and isinstance(e.right, ast.Call)
+            and _np_is(e.right.func, 'np', 'ones_like') and len(e.right.args) == 1 and isinstance(e.right.args[0], ast.Name)
+            and [k.arg for k in e.right.keywords] == ['dtype'] and dump(e.right.keywords[0].value) == "Attribute(value=Name(id='np'), attr='float32')"):
+        return [], f'(np_fill {cname(e.left.id)} {cname(e.right.args[0].id)})'
+    if isinstance(e, ast.Call) and isinstance(e.func, ast.Attribute) and isinstance(e.func.value, ast.Name) and e.func.value.id == 'np':
+        raise Unsupported(f'numpy call outside the subset: {d[:160]}')
+    return None
+
+
+def _s_ri(tr, s, rest, env, tail):
+    d = dump(s)
+    if d == _RI_SIZE:
+        return f'let img_size := im_size img in {tr.T(rest, env, tail)}'
+    if d == _RI_CONVERT:
+        return tr.T(rest, env, tail)          # PIL's conversion to mode '1' is an oracle: im_matrix is the matrix after it
+    if isinstance(s, ast.Assign) and any(isinstance(t, ast.Attribute) for t in s.targets):
+        raise Unsupported(f'attribute assignment: {d[:120]}')
+    return None
+
+
+def translate_raster(src_dir: str) -> str:
+    global METHODS, CFG_ATTRS, STATE_ATTRS, ORACLES, CFG_TYPE, LOCAL_ELT, EXTRA_PARAMS, MONAD, EXPR_HOOKS, STMT_SKIP, RECEIVERS, STMT_HOOKS, ALLOW_CONTINUE
+    saved = (METHODS, CFG_ATTRS, STATE_ATTRS, ORACLES, CFG_TYPE, LOCAL_ELT, EXTRA_PARAMS, MONAD, EXPR_HOOKS, STMT_SKIP, RECEIVERS, STMT_HOOKS)
+    out = [PURE_PREAMBLE % ('rasterimage.py', ' Base.Runs Path.Raster', 'NpState SrcUf RiState')]
+    try:
+        mod = ast.parse(pathlib.Path(src_dir, 'rasterimage.py').read_text())
+        cls = [n for n in mod.body if isinstance(n, ast.ClassDef) and n.name == 'RasterImage']
+        if len(cls) != 1:
+            raise Unsupported('class RasterImage not found')
+        METHODS = {'image_to_path': ('method', [('img', 'image')], 'unit')}
+        CFG_ATTRS, STATE_ATTRS = {'px_to_mm', 'z_init', 'speed', 'speed_closed'}, {}
+        ORACLES = {'add_path': ('rp_add_path', True, False, ['x', 'y', 'z', 'f', 's'])}
+        CFG_TYPE, LOCAL_ELT, EXTRA_PARAMS, MONAD = 'ri_cfg', {}, '', 'MR'
+        EXPR_HOOKS, STMT_SKIP, RECEIVERS, STMT_HOOKS = [_h_ri], [], {'self'}, [_s_ri]
+        ALLOW_CONTINUE = True
+        out.append('\n'.join(f'Notation cfg_{a} := ri_{a}.' for a in sorted(CFG_ATTRS)) + '\n\n')
+        out.append(Tr(cls[0]).method('image_to_path') + '\n')
+    finally:
+        ALLOW_CONTINUE = False
+        METHODS, CFG_ATTRS, STATE_ATTRS, ORACLES, CFG_TYPE, LOCAL_ELT, EXTRA_PARAMS, MONAD, EXPR_HOOKS, STMT_SKIP, RECEIVERS, STMT_HOOKS = saved
+    return ''.join(out)
+
 
 def main(argv):
     """py2coq.py <dir of femto sources> <output dir> <group>...   groups: pgm (PgmSrc.v), SrcLp.v, SrcNw.v, SrcTc.v, SrcTr.v"""
@@ -2079,6 +2168,8 @@ def main(argv):
                 name, text = g, translate_marker(str(src_dir))
             elif g == 'SrcAp.v':
                 name, text = g, translate_add_path(str(src_dir))
+            elif g == 'SrcRi.v':
+                name, text = g, translate_raster(str(src_dir))
             elif g == 'SrcSs.v':
                 name, text = g, translate_sheet(str(src_dir))
             elif g == 'SrcTn.v':
